@@ -121,6 +121,23 @@ META["C19"] = dict(cat="model_checking", design="6 C19",
                         "tool error. " + _TB,
                    tech="TLC model checking of FrontEnd.tla (operational = declarative) + trace validation of front-end records")
 
+META["C08"] = dict(cat="model_checking", design="6 C08",
+                   text="Arbitrary bytes (every value, run-structured and random, all exponent classes) are run under catch_unwind in "
+                        "release, debug-assertions+overflow-checks and AddressSanitizer builds (Miri with Tree Borrows in thorough) with "
+                        "begin/end markers; TLC validates outcome in {value, clean panic} per record and runs the parse_number model on "
+                        "the garbage; MC_Garbage checks the unchecked-index obligations of the model for all Number classes.",
+                   note="The specification fixes the permitted outcomes and bounds obligations; detection of an undefined access in the "
+                        "binary is by the instruments (ASan, core's UB-precondition checks, Miri). Stacked Borrows is not used (see DESIGN F2). " + _TB,
+                   tech="TLC trace validation of outcome records + model checking of index obligations; instruments: ASan, debug UB checks, Miri")
+META["C16"] = dict(cat="model_checking", design="6 C16",
+                   text="MC_Calls explores every interleaving of 3 threads x 2 inputs x every initial stack content of the call model "
+                        "(uninitialised per-frame scratch vector, write-before-length, no shared state) and checks that the two failure "
+                        "designs named by the property are caught; the real parse_float is called with 7 iterator shapes after stack "
+                        "poisoning and from 8 concurrent threads, and the CF_Calls trace specification accepts a Return only if it "
+                        "carries the sequential baseline for that input.",
+                   note="Verdicts compare bits only (no timing). The interleavings of real threads are whatever the scheduler produced. " + _TB,
+                   tech="TLC model checking of Calls.tla (all interleavings) + trace validation of per-thread call/return events")
+
 PENDING = "check not built yet in this revision of /verif (planned; see DESIGN.md section 6)"
 
 
